@@ -92,7 +92,7 @@ class Get(RPC):
 
 
 def _append_with_defaults_mode(node, mode, capabilities):
-    _validate_with_defaults_mode(mode, capabilities)
+    mode = _validate_with_defaults_mode(mode, capabilities)
     with_defaults_element = sub_ele_ns(
         node,
         "with-defaults",
@@ -103,7 +103,8 @@ def _append_with_defaults_mode(node, mode, capabilities):
 
 def _validate_with_defaults_mode(mode, capabilities):
     valid_modes = _get_valid_with_defaults_modes(capabilities)
-    if mode.strip().lower() not in valid_modes:
+    normalized_mode = mode.strip().lower()
+    if normalized_mode not in valid_modes:
         raise WithDefaultsError(
             "Invalid 'with-defaults' mode '{provided}'; the server only "
             "supports the following: {options}".format(
@@ -111,6 +112,7 @@ def _validate_with_defaults_mode(mode, capabilities):
                 options=', '.join(valid_modes)
             )
         )
+    return normalized_mode
 
 
 def _get_valid_with_defaults_modes(capabilities):
